@@ -82,6 +82,8 @@ pub struct Cfg {
     pub clone_held: bool,
     /// Offer EditHeld (in-place edits of a handed-out pool buffer; at most two per history).
     pub edit_held: bool,
+    /// Offer `Ring::poll(None)` (EnterBlocking).
+    pub blocking_enter: bool,
     /// The first synchronous close(2) a10 makes reports EINTR (the descriptor is closed nevertheless).
     pub close_eintr: bool,
     /// Explicit closes stay in flight until the explorer completes them.
@@ -120,6 +122,7 @@ impl Cfg {
             zc_error_notif: true,
             hold_close: false,
             edit_held: false,
+            blocking_enter: false,
             close_eintr: false,
             clone_held: false,
             reread_held: false,
@@ -137,6 +140,8 @@ pub enum Action {
     DropOp(usize),
     /// `Ring::poll(Some(0))`.
     Enter,
+    /// `Ring::poll(None)`: waits in the kernel until something completes.
+    EnterBlocking,
     /// Kernel completes the oldest in-flight request of operation `i`.
     Complete(usize, Oc),
     /// Kernel posts a bookkeeping CQE of shape index `i`.
@@ -1090,7 +1095,7 @@ impl OpsWorld {
         self.absorb_kernel_log();
     }
 
-    fn do_enter(&mut self) {
+    fn do_enter(&mut self, timeout: Option<Duration>) {
         if self.cfg.canary {
             self.scribble();
         }
@@ -1104,9 +1109,20 @@ impl OpsWorld {
         let cq_empty_at_call = simk::with(|k| k.rings[0].cq_ready() == 0 && k.rings[0].overflow.is_empty());
         let waiting_before = if cq_empty_at_call { self.slot_waiters.len() } else { 0 };
         waker::tick();
-        let res = talloc::track(|| self.ring.as_mut().unwrap().poll(Some(Duration::ZERO)));
+        let would_block_before = simk::with(|k| k.would_block);
+        let waiting_any = self.slot_waiters.len();
+        let res = talloc::track(|| self.ring.as_mut().unwrap().poll(timeout));
         if let Err(e) = res {
             self.report(self.cfg.prop, "ring-poll-error", format!("Ring::poll returned an error: {e}"));
+        }
+        // A call without a timeout that went to wait in the kernel with nothing in sight that could end
+        // the wait (in this sequential world nothing else runs: it would never return) while operations
+        // wait for the submission slots this very call has freed.
+        if timeout.is_none() && simk::with(|k| k.would_block) > would_block_before && waiting_any > 0 {
+            let avail = simk::with(|k| k.rings[0].sq_entries.saturating_sub(k.rings[0].sq_pending()));
+            if avail > 0 {
+                self.report("C03", "lost-wakeup/queue-space/poll-blocks", format!("{waiting_any} waker(s) wait for a submission slot; Ring::poll(None) submitted what was queued ({avail} slot(s) are free now) and then waits in the kernel for a completion: if no other operation ever completes it never returns and the waiting operations are never woken"));
+            }
         }
         self.absorb_kernel_log();
         self.absorb_spontaneous();
@@ -1260,6 +1276,9 @@ impl World for OpsWorld {
             }
         }
         v.push((Action::Enter, 0));
+        if self.cfg.blocking_enter {
+            v.push((Action::EnterBlocking, 1));
+        }
         for i in 0..self.slots.len() {
             let s = &self.slots[i];
             if s.op.is_none() || s.phase == Phase::Finished {
@@ -1353,7 +1372,8 @@ impl World for OpsWorld {
             Action::New(k) => self.new_op(*k),
             Action::Poll(i, fresh) => self.do_poll(*i, *fresh),
             Action::DropOp(i) => self.do_drop_op(*i),
-            Action::Enter => self.do_enter(),
+            Action::Enter => self.do_enter(Some(Duration::ZERO)),
+            Action::EnterBlocking => self.do_enter(None),
             Action::Complete(i, oc) => self.do_complete(*i, *oc),
             Action::PostRaw(i) => {
                 let (ud, res, flags) = self.cfg.raw_cqes[*i];
